@@ -6,12 +6,22 @@ X = 'giscanner.xmlwriter.'
 
 # --- trusted contracts of the standard library escaping functions --------------------------------
 contract('xml.sax.saxutils.quoteattr', params={'data': 'str'}, returns='str', pure_keys=['data'], trusted=True,
-         ensures={'quoted': "len(result) >= 2", 'no_raw_lt': "'<' not in result"},
+         ensures={'quoted': "len(result) >= 2", 'no_raw_lt': "'<' not in result",
+                  'plain_values_are_just_quoted': "implies(plain_attribute_text(data), result == '\"' + data + '\"')"},
          note='quoteattr: a quoted attribute value that XML attribute-value parsing maps back to data')
 contract('xml.sax.saxutils.escape', params={'data': 'str'}, returns='str', pure_keys=['data'], trusted=True,
          ensures={'no_raw_lt': "'<' not in result"},
          note='escape: character data that XML parsing maps back to data')
 from xml.sax.saxutils import quoteattr, escape   # noqa  (for native evaluation of the clauses)
+
+import re as _re
+_NEEDS_QUOTING = _re.compile('[&<>"\n\r\t]')
+
+
+def plain_attribute_text(data):
+    """no character that quoteattr has to escape: & < > double quote, newline, carriage return, tab"""
+    return not _NEEDS_QUOTING.search(data)
+
 
 ATTRS = 'list[tuple[str,str?]]'
 
